@@ -551,4 +551,69 @@ Proof.
     pose proof EL as EL3. eapply apply_locs_nullr in EL3; [|cbn [set_st b_st s_utxo with_utxo]; exact N2].
     destruct EL3 as [N3 N4]. cbn [set_st b_lost] in N4. rewrite N4. exact N3.
 Qed.
+
+Lemma index_tx_sat_cb : forall h t b b',
+  SI b -> b_lost_ranges b = [] -> NullR (s_utxo (b_st b)) (b_lost b) ->
+  tx_cb t -> t_id t <> 0 ->
+  index_tx cfg h true true t b = Ok b' ->
+  DomIff (b_next b') (s_entries (b_st b')) /\
+  EntInv (s_entries (b_st b')) (s_utxo (b_st b')) (b_lost_ranges b') /\
+  KeyU (s_entries (b_st b')) (s_utxo (b_st b')) /\ Off cfg (s_utxo (b_st b')) /\
+  NullR (s_utxo (b_st b')) (b_lost b).
+Proof.
+  intros h t b b' [D HE HK HF HC HO] HLR HN HCB Hz H.
+  pose proof (index_tx_off cfg _ _ _ _ _ _ HO H) as HOff'.
+  unfold index_tx in H. rewrite HS in H. cbn [bind] in H.
+  dbind H. destruct a as [[per_out in_ranges] b1]. dbind E. destruct a as [po lft]. inv E. rename E0 into ESp.
+  set (input := b_cb_ranges b) in *.
+  unfold index_inscriptions in H. dbind H. destruct a as [F tiv]. rename E into EF.
+  apply floating_of_olds_cb in EF; auto. subst F.
+  rewrite (cb_is_coinbase t HCB) in H. cbn [app set_st set_flot b_st b_flot b_reward b_lost b_next b_cb_ranges b_lost_ranges] in *.
+  rewrite HLR in *. cbn [app] in *.
+  destruct (assign (t_id t) 0 0 (t_outs t) (sort_by f_offset (b_flot b))) as [[locs rest] ov] eqn:EA.
+  dbind H. rename a into b3. rename E into EL. dbind H. rename a into b4. rename E into ELo. dbind H. inv H.
+  set (utxo2 := put_outputs cfg (t_id t) 0 (t_outs t) per_out (s_utxo (b_st b))) in *.
+  assert (E2 : EntInv (s_entries (b_st b)) utxo2 lft).
+  { intros op u Hu Hne s off Hp. apply put_outputs_tg in Hu. destruct Hu as [[_ Hu]|Hu]; [rewrite Hu in Hp; destruct Hp|].
+    eapply EntInv_mono; eauto. }
+  assert (K2 : KeyU (s_entries (b_st b)) utxo2).
+  { intros op u s off Hu Hp. apply put_outputs_tg in Hu. destruct Hu as [[_ Hu]|Hu]; [rewrite Hu in Hp; destruct Hp|]. eapply HK; eauto. }
+  assert (O2 : OutsR (t_id t) (t_outs t) per_out utxo2).
+  { intros k o Hk. subst utxo2. rewrite <- (N.add_0_l (N.of_nat k)). rewrite (put_outputs_lookup cfg _ _ _ _ _ _ _ Hk), HS.
+    eexists. split; reflexivity. }
+  pose proof (assign_split _ _ _ _ _ _ _ _ EA) as ESplit.
+  assert (AS0 : Forall (fun f => 0 <= f_offset f) (sort_by f_offset (b_flot b))) by (apply Forall_forall; intros; lia).
+  destruct (assign_spec (t_id t) (t_outs t) 0 0 _ locs rest ov (sort_by_sorted f_offset (b_flot b)) AS0 EA) as (Hov & Hrest & HL).
+  assert (Fall : FlInv (s_entries (b_st b)) input (map loc_flot locs ++ rest)).
+  { rewrite <- ESplit. intros f s Hf. apply HF. eapply Permutation_in; [apply sort_by_perm|exact Hf]. }
+  pose proof EL as EL2.
+  eapply (apply_locs_sat h input (t_id t) (t_outs t) per_out lft lft locs) in EL2;
+    [ | exact Hz | exact ESp | exact D | exact E2 | exact K2
+      | intros f s Hf; apply Fall; apply in_or_app; left; exact Hf | exact O2 | exact HL ].
+  destruct EL2 as (D3 & E3 & K3 & X3 & O3). cbn [set_st b_st s_entries with_utxo] in X3.
+  assert (N2 : NullR utxo2 (b_lost b)).
+  { unfold NullR, entry_at in *. subst utxo2. rewrite put_outputs_tg_other by (cbn; auto). exact HN. }
+  pose proof EL as EL3. eapply apply_locs_nullr in EL3; [|cbn [set_st b_st s_utxo with_utxo]; exact N2].
+  destruct EL3 as [N3 N4]. cbn [set_st b_lost] in N4.
+  destruct (split_sats_spec _ _ _ _ ESp) as [_ HLf]. rewrite Hov, N.add_0_l in *.
+  pose proof ELo as EL4.
+  eapply (apply_lost_sat h input (sum_values (t_outs t)) lft rest) in EL4;
+    [ | exact HLf | exact Hrest | exact D3 | exact E3 | exact K3
+      | eapply FlInv_ext; [exact X3|]; intros f s Hf; apply Fall; apply in_or_app; right; exact Hf
+      | rewrite N4; exact N3 ].
+  destruct EL4 as (D4 & E4 & K4 & X4).
+  pose proof (apply_locs_aux _ _ _ _ _ EL) as (_ & _ & _ & _ & A5 & _).
+  pose proof (apply_lost_aux _ _ _ _ _ _ ELo) as (_ & _ & B3 & _ & B5 & _).
+  cbn [set_st b_lost_ranges] in A5.
+  cbn [b_st b_next b_lost_ranges]. rewrite B5, A5.
+  split; [exact D4|]. split; [exact E4|]. split; [exact K4|]. split; [exact HOff'|].
+  (* the null entry keeps its ranges *)
+  clear -ELo N3 N4. revert b3 b4 ELo N3 N4. induction rest as [|f r IH]; intros b3 b4 ELo N3 N4; cbn [apply_lost] in ELo.
+  - inv ELo. exact N3.
+  - dbind ELo. dbind ELo. eapply (IH a0 b4 ELo).
+    + destruct (update_utxo_shape _ _ _ _ _ _ _ E0) as (op2 & s2 & off2 & U & _). unfold NullR. rewrite U, entry_at_push_ranges. exact N3.
+    + destruct (f_origin f) eqn:Ho.
+      * destruct (update_new_shape _ _ _ _ _ _ _ _ _ _ _ _ _ _ Ho E0) as (e0 & [_ _ _ _ _ _ _ _ _ _ _ (_ & _ & Q & _)]). congruence.
+      * destruct (update_old_shape _ _ _ _ _ _ _ _ Ho E0) as (_ & _ & _ & _ & _ & _ & (_ & _ & Q & _) & _). congruence.
+Qed.
 End SatTx.
